@@ -15,6 +15,9 @@ list is an explicit argument of `matchRun`). Chunk independence of the callbacks
 proved clause of this module: `callbacks_chunk_independent_given_C03` is conditional on C03 as an
 undischarged hypothesis, `callbacks_chunk_independent_machine` discharges it only for a token
 stream defined from the result of C03's byte machine; for the Go code it is tied by correspondence.
+(Round 3: Props/C17Chunks.lean defines the tokenizer's event sequence from the run of the byte machine
+and proves the clause — `C17_chunked`, `callbacks_chunk_independent`; Props/C17Filter.lean covers target
+sets with filters, Props/C17Coincide.lean characterises the excluded from-the-end/slice class.)
 
 SCOPE: `C17_partial` holds for target SETS in which NO target uses a slice (other than `[:]`), a
 filter or a from-the-end index/union member anywhere. `C17_streamed` weakens that for slices and
